@@ -156,3 +156,27 @@ Definition close_class (o_cb : list Z) (o_done o_closers_ret o_panic o_ops_ret o
   else if negb o_ops_ret then 6%N
   else if negb o_serve_ret then 7%N
   else 0%N.
+
+(* an operation whose write is stalled in the socket because the peer stopped reading (half-open stream, socket
+   buffers full).  trig 0 / 1: its context is cancelled / expires -- it must return (8 = it does not), and not
+   with success (2).  trig 2 / 3: the connection is closed locally (any number of concurrent Close calls) / by
+   the peer -- every Close call returns, the operation returns, Done is completed, every callback ran exactly
+   once (the classes of close_class). *)
+Definition stall_class (trig : Z) (o_cb : list Z) (o_done o_closers o_panic o_op : bool) (o_err : Z) : N :=
+  if (trig =? 0) || (trig =? 1) then
+    if negb o_op then 8%N else if o_err =? 0 then 2%N else 0%N
+  else if negb o_closers || o_panic then 5%N
+  else close_class o_cb o_done o_closers o_panic o_op true.
+
+(* the reader loop of a connection has ended because of the peer (cause 0 input that does not decode, 1 an
+   oversized message, 2 the peer closed) and nobody called Close.  The connection is closed once its done signal is
+   completed, a callback has run, its context is cancelled (o_ctx), or the peer has closed: then every callback
+   ran exactly once, Done is completed, every operation in flight has returned (6), and a call made afterwards
+   returns (1).  While the library keeps the connection alive after garbage nothing is required. *)
+Definition reader_end_class (cause : Z) (o_cb : list Z) (o_done o_ctx o_ops o_late : bool) : N :=
+  let is_closed := o_done || o_ctx || (cause =? 2) || existsb (fun c => negb (c =? 0)) o_cb in
+  if negb is_closed then 0%N
+  else
+    let c := close_class o_cb o_done true false o_ops true in
+    if negb (N.eqb c 0) then c
+    else if negb o_late then 1%N else 0%N.
